@@ -23,6 +23,8 @@ verus! {
 //@include spec/parser.spec.rs
 //@include spec/grammar.spec.rs
 //@include spec/scope.spec.rs
+//@include spec/closed.spec.rs
+//@include spec/closed_bridge.spec.rs
 
 impl Token {
 //@decl Token.error
